@@ -7,6 +7,7 @@ import (
 	"fmt"
 	"path/filepath"
 	"strings"
+	"time"
 
 	"github.com/douban/gobeansdb/store"
 	"verif/lincheck"
@@ -102,9 +103,98 @@ func vfC05(env *vfc.Env) {
 			}
 		}
 	}
+	if a.Targeted && !a.NoDumper {
+		for i, merge := range []bool{false, true} {
+			id := fmt.Sprintf("d%d-dumper-holds-chunk-while-gc-clears-it-merge=%v", i, merge)
+			if env.Want(id) {
+				vfC05DumperVsClear(env, id, rnd.Split(uint64(7900+i)), merge)
+			}
+		}
+	}
 	for k, v := range vfc.InstallHooks().Counts() {
 		env.Res.Event("hook."+k, v)
 	}
+}
+
+// vfC05DumperVsClear: the periodic hint dumper is parked inside trydump of a
+// chunk (chunk locked, about to dump its split) when a GC pass starts on a range
+// beginning with that chunk (GC replaces the hint chunk of every source file).
+// Either GC waits for the dumper or the dumper must cope with the replacement;
+// the process must survive and every key must hold its last acknowledged write.
+func vfC05DumperVsClear(env *vfc.Env, id string, r *ref.Rand, merge bool) {
+	res := env.Res
+	cfg := vfC05Config(r)
+	c := &vfC05Case{Cfg: cfg, Kind: "dumper-vs-clearchunk", Merge: merge, Seed: r.Uint64()}
+	c.Keys = vfTagSafeKeys(r, r.Range(3, 6), cfg)
+	res.Begin(id, c)
+	sut, err := vfOpenSUT(cfg, filepath.Join(env.Work, id), res)
+	if err != nil {
+		res.Violate(id, "c05:open-error", err.Error(), c)
+		return
+	}
+	defer sut.Destroy()
+	hooks := vfc.InstallHooks()
+	mem := newMemReg()
+	hooks.SetMem(mem.hook)
+	defer hooks.SetMem(nil)
+	pre := vfC05Preload(sut, c.Keys, r, vfC05MaxVal(cfg))
+	ranges := store.VFLegalRanges(sut.hs, 0)
+	if len(ranges) == 0 {
+		res.Event("placement_no_target", 1)
+		return
+	}
+	rg := ranges[r.Intn(len(ranges))]
+	for _, cand := range ranges { // a range not starting at file 0 can move records into an earlier file: GC then never needs the lock the dumper holds
+		if cand[0] > 0 {
+			rg = cand
+			break
+		}
+	}
+	c.Range = [2]int{rg[0], rg[1]}
+	sut.quiet = false
+	store.VFSetMergeChan(true) // as with a running HintDumper: writers signal instead of dumping themselves
+	defer store.VFSetMergeChan(false)
+	sched := vfc.NewSched(c.Seed, 0)
+	hooks.SetPoint(sched.Hook)
+	// the dumper visits the chunks in order, one trydump each: the (first source + 1)-th hit
+	td := sched.AddTrap("dumper", "dumper", "hint.trydump.locked", rg[0]+1)
+	dumpDone := make(chan struct{})
+	go func() {
+		sched.SetRole("dumper")
+		store.VFDumpHints(sut.hs)
+		close(dumpDone)
+	}()
+	sched.SetRole("client")
+	reached := false
+	select {
+	case <-dumpDone:
+	default:
+		reached = td.WaitParked(vfWatchdog)
+	}
+	tg := sched.AddTrap("gc", "gc", "gc.afterNewestCheck", 1) // first hook after the source's hint chunk was replaced
+	gcDone := make(chan struct{})
+	go func() {
+		sched.SetRole("gc")
+		store.VFGCDirect(sut.hs, 0, rg[0], rg[1], merge)
+		close(gcDone)
+	}()
+	order := "gc-waited-for-dumper"
+	if reached && tg.WaitParked(300*time.Millisecond) {
+		order = "gc-replaced-chunk-under-dumper" // only a hint for the evidence: the verdict is the oracle below
+	}
+	td.Release()
+	<-dumpDone
+	tg.Release()
+	<-gcDone
+	cl := &vfClient{hs: sut.hs, id: 1}
+	cl.get(c.Keys[0], false, false)
+	cl.set(c.Keys[0], "text", 100)
+	sched.ReleaseAll()
+	res.Seen(fmt.Sprintf("dumper-vs-clearchunk/reached=%v/%s/merge=%v", reached, order, merge))
+	res.Event("dumper_vs_clearchunk."+order, 1)
+	all := append(append([]lincheck.Op{}, pre.ops...), cl.ops...)
+	vfC05Finish(res, id, c, sut, all, r)
+	res.Event("placement_cases", 1)
 }
 
 // vfC05Finish: final read-back, then restart with an index subset removed and a
